@@ -349,3 +349,51 @@ def build_response(spec):
     rs = b.response(spec)
     b.resolve()
     return rs
+
+
+# ---------------------------------------------------------------------------
+# diagnostic layers (real EcuVariant objects, as tests/test_decoding.py builds them)
+# ---------------------------------------------------------------------------
+def build_layer(spec):
+    """spec: {"services": [{"name", "request": {...}|None, "pos": [..], "neg": [..]}], "gnr": [..]}"""
+    from odxtools.database import Database
+    from odxtools.diaglayers.diaglayertype import DiagLayerType
+    from odxtools.diaglayers.ecuvariant import EcuVariant
+    from odxtools.diaglayers.ecuvariantraw import EcuVariantRaw
+    from odxtools.diagservice import DiagService
+    b = Builder()
+    services, requests, pos, neg, gnrs = [], [], [], [], []
+    for sv in spec["services"]:
+        rq = None
+        if sv.get("request") is not None:
+            rq = b.request(sv["request"], name=sv["name"] + "_rq")
+            requests.append(rq)
+        prs = [b.response(r, name=f"{sv['name']}_pr{i}") for i, r in enumerate(sv.get("pos", []))]
+        nrs = [b.response(r, name=f"{sv['name']}_nr{i}", rtype="NEG-RESPONSE")
+               for i, r in enumerate(sv.get("neg", []))]
+        pos += prs
+        neg += nrs
+        services.append(mk(DiagService, odx_id=oid(sv["name"] + "_id"), short_name=sv["name"],
+                           request_ref=None if rq is None else OdxLinkRef.from_id(rq.odx_id),
+                           pos_response_refs=[OdxLinkRef.from_id(r.odx_id) for r in prs],
+                           neg_response_refs=[OdxLinkRef.from_id(r.odx_id) for r in nrs]))
+    for i, g in enumerate(spec.get("gnr", [])):
+        gnrs.append(b.response(g, name=f"gnr{i}", rtype="GLOBAL-NEG-RESPONSE"))
+    raw = mk(EcuVariantRaw, variant_type=DiagLayerType.ECU_VARIANT, odx_id=oid("layer_id"),
+             short_name="layer", diag_comms_raw=list(services), requests=NamedItemList(requests),
+             positive_responses=NamedItemList(pos), negative_responses=NamedItemList(neg),
+             global_negative_responses=NamedItemList(gnrs))
+    layer = EcuVariant(diag_layer_raw=raw)
+    db = OdxLinkDatabase()
+    for o in b.objs:
+        db.update(o._build_odxlinks())
+    db.update(layer._build_odxlinks())
+    for o in b.objs:
+        o._resolve_odxlinks(db)
+    layer._resolve_odxlinks(db)
+    layer._finalize_init(Database(), db)
+    try:
+        layer._resolve_snrefs(SnRefContext(database=None))
+    except Exception:  # noqa: BLE001 - nothing in these layers uses short-name references
+        pass
+    return layer
